@@ -665,6 +665,46 @@ def run_history(ctx, w, case):
     return "hist 3 %s %s" % (table, " ".join(toks)), " ".join(impl)
 
 
+# ------------------------------------------------------------------ Deleter.modify through the retry loop
+
+def deleter_retries(ctx, w, case, dlines, dimpls, dcases):
+    """the real Deleter.modify(old_contents, servermap, first_time) applied as MutableFileVersion.modify's loop applies
+    it — first_time=True on the first contents, False on every re-read — against the model's retryLoop/deleterModifyFT"""
+    from allmydata.dirnode import Deleter
+    dn = w.rw[0]
+    b0 = w.rt.wait(dn._node.download_best_version())
+    ch0 = dn._unpack_contents(b0)
+    names = sorted(ch0)
+    if not names:
+        return
+    dump = lambda b: ";".join("%s~%s~%s" % (nm(k), show_node(n), show_meta(md))
+                              for k, (n, md) in sorted(dn._unpack_contents(b).items(), key=lambda kv: nm(kv[0]))) or "-"
+    for name in names[:2] + ["c20-absent"]:
+        without = dn._unpack_contents(b0)
+        if name in without:
+            del without[name]
+        b1 = dn._pack_contents(without)
+        for reads in ([b0], [b0, b1], [b1], [b0, b0], [b1, b0], [b0, b1, b1]):
+            for flags in ((True, False, False), (False, False, False), (True, True, False), (True, False, True)):
+                d = Deleter(dn, name, must_exist=flags[0], must_be_directory=flags[1], must_be_file=flags[2])
+                out = None
+                for j, b in enumerate(reads):
+                    try:
+                        new = d.modify(b, None, j == 0)
+                        out = "ok:%s#%s" % (show_node(d.old_child) if d.old_child is not None else "N", dump(b if new is None else new))
+                    except Exception as e:  # noqa
+                        out = "err:" + ERRS.get(type(e).__name__, type(e).__name__)
+                        break
+                allnames = set(ch0) | {name}
+                table = ",".join("%s>%s" % (nm(x), nm(nfc(x))) for x in sorted(allnames)) or "-"
+                dlines.append("delretry %s %s %d%d%d %s" % (table, nm(name), flags[0], flags[1], flags[2],
+                                                           "^".join(dump(b) for b in reads)))
+                dimpls.append(out)
+                dcases.append({"delretry": name, "flags": list(flags), "reads": len(reads), "history": case})
+                ctx.case(("delretry", len(reads), flags, out.split("#")[0].split(":")[0] + (out if out.startswith("err") else "")))
+    ctx.count("delretry-histories")
+
+
 # ------------------------------------------------------------------ two writers on one directory (monitor only)
 
 WRITE = "slot_testv_and_readv_and_writev"
@@ -861,14 +901,17 @@ def run(ctx):
         for _ in range(0 if corpus_only else ctx.budget(40, 600)):
             twos.append(gen_two_writer(ctx.rng))
     lines, impls = [], []
+    dlines, dimpls, dcases = [], [], []
     with grid.Runtime(seed=ctx.seed, policy="random") as rt:
         g = grid.Grid(grid.fresh_dir("c20"), rt, num_servers=3, num_clients=2, k=1, happy=1, n=2)
         try:
             w = World(ctx, rt, g)
-            for hcase in hists:
+            for hi, hcase in enumerate(hists):
                 line, impl = run_history(ctx, w, hcase)
                 lines.append(line)
                 impls.append(impl)
+                if hi < 12:
+                    deleter_retries(ctx, w, hcase, dlines, dimpls, dcases)
             # afterwards: the retry back-off of colliding writers moves the virtual clock by fractions of a second
             for tcase in twos:
                 run_two_writer(ctx, rt, g, tcase)
@@ -879,5 +922,10 @@ def run(ctx):
         model = [" ".join(canon_out(t) for t in m.split(" ")) for m in model]
         ctx.compare("directory history: result/error of every op and the listing of all 3 directories after it",
                     hists, impls, model)
+    dmodel = ctx.model(dlines)
+    if dmodel is not None:
+        fix = lambda t: t if "#" not in t else t.split("#")[0] + "#" + canon_dir(t.split("#")[1])
+        ctx.compare("Deleter.modify through the retry loop (first_time True, then False on re-read contents)",
+                    dcases, [fix(x) for x in dimpls], [fix(x) for x in dmodel])
     if hists:
         ctx.sample({"ops": hists[-1]["ops"][:4], "impl": impls[-1][:300]})
